@@ -473,7 +473,7 @@ def number_finish(res, obs, cand):
 def stage(rep, s, tsrc, F, tier, only, text=None):
     """decides G; returns nothing (verdicts are final: replayed here)"""
     t0 = time.time()
-    kmax = 2 if tier == "quick" else 3
+    kmax = 2 if tier == "quick" else 4
     keyD = "writer/Str/dispatch"
     keys = [keyD] + ["string-kernel/chars=%d" % k for k in range(kmax + 1)] + ["string-kernel/translation"] + ["writer/number/" + k for k in NUMS]
     if only and not any(o in k for o in only.split(",") for k in keys):
